@@ -15,7 +15,8 @@ columns the accounting uses: index label, `number`, `position_ver`, `position_ho
                                              the proposed repair `proposed_fixes/C14-*.diff`: clusters
                                              whose pixel index is outside the array are skipped)
 * `convert_array_to_df`   → `arrayToDf`     (entries `> 0`, row-major, at `k·size + size/2`)
-* `remove_from_frame`     → `remove`        (by index label; an empty list removes all)
+* `remove_from_frame`     → `remove`        (by index label; an empty list removes all; the array
+                                             cache is zeroed when the last clusters were removed)
 * `empty`                 → `reset`
 
 Arrays are *values* here: `addArray a` adds the values the caller's array holds at call time.  The
@@ -147,8 +148,11 @@ def step (g : Geo) (s : St) : Op → St × Out
   | .addClusters cs => (addClustersCore g s cs, .unit)
   | .read => let r := readArr g s; (r.1, .arr r.2)
   | .remove ids =>
-    if ids.isEmpty then ({ s with frame := [] }, .unit)
-    else ({ s with frame := s.frame.filter (fun e => !ids.contains e.1) }, .unit)
+    let fr := if ids.isEmpty then [] else s.frame.filter (fun e => !ids.contains e.1)
+    -- /repo ba89bae + proposed C14-remove-keeps-array-charge: when the call removed the last
+    -- clusters the cached array is reset to zeros; with no cluster before the call `_array` is the
+    -- charge added as arrays and is kept
+    ({ s with frame := fr, arr := if !s.frame.isEmpty && fr.isEmpty then zeros g else s.arr }, .unit)
   | .reset => (⟨zeros g, [], 0⟩, .unit)
 
 def run (g : Geo) : St → List Op → St
